@@ -21,6 +21,7 @@ import datetime as _dt
 from .. import core, harness, vclock, vloop
 
 PROP = 'C04'
+TECHNIQUE = ("runtime monitoring: online monitor over observed FSM.event entries and the virtual loop's timer-handle registry (armed timer == live handles, on time, never stale), reference timed-FSM interpreter on a virtual clock")
 LEVEL = 'exploration'
 RULE = ("case = (block: generic timed FSM class generated with type() / Timer / InputExp; "
         "durations of timed states from {0, negative, d1, d2, INF, None+instance override, "
